@@ -216,12 +216,46 @@ def evaluate_bounded(text, base):
 
 def working_value(si_factor, dim, base):
     """Value in working units of a quantity with the given SI factor and dimension,
-    in an epoch whose base values (m, kg, s, C, K) are `base`."""
-    v = si_factor
+    in an epoch whose base values (m, kg, s, C, K) are `base`.
+
+    The product si_factor * prod(base**p) is formed on (mantissa, binary exponent) pairs: multiplying the
+    floats one after the other can pass through the denormal range although the result is an ordinary
+    number (seen once in 200 000 runs: 5e-95 * 1e-120 * 7.6e-108 = 3.85e-322 on the way to 4.9e-107, which cost
+    four digits and was blamed on the parser)."""
+    import math
+    if si_factor == 0 or not math.isfinite(si_factor):
+        v = si_factor
+        for b, p in zip(base, dim):
+            if p:
+                v *= b ** p
+        return v
+    m, e = math.frexp(si_factor)
     for b, p in zip(base, dim):
-        if p:
-            v *= b ** p
-    return v
+        if not p:
+            continue
+        ip = int(math.floor(p)) if p >= 0 else -int(math.floor(-p))
+        fp = p - ip
+        mb, eb = math.frexp(b)
+        if ip:
+            # mb in [0.5, 1): mb**ip stays an ordinary number for any exponent a unit expression reaches
+            k = abs(ip)
+            while k:
+                step = min(k, 60)
+                t = mb ** step
+                if ip > 0:
+                    m *= t
+                    e += eb * step
+                else:
+                    m /= t
+                    e -= eb * step
+                m, de = math.frexp(m)
+                e += de
+                k -= step
+        if fp:
+            m *= b ** fp
+            m, de = math.frexp(m)
+            e += de
+    return math.ldexp(m, e)
 
 
 def base_of(nu):
